@@ -84,17 +84,18 @@ def encOsu (c : Osu.Chart) : Chart :=
                      c.md.samples.map fun s => [.num s.offset, strCell s.file, .num (s.volume : Rat)]⟩,
     preview := some c.md.previewTime, extra := [] }
 
-/-- the rated osu chart, row by row, with its sample events and preview point -/
+/-- the rated osu chart, row by row, with its sample events and preview point (a negative preview time is the
+"no preview point" marker and stays) -/
 def scaleOsu (r : Rat) (c : Osu.Chart) : Osu.Chart :=
   { c with
-    md := { c.md with previewTime := c.md.previewTime / r,
+    md := { c.md with previewTime := scalePreview r c.md.previewTime,
                       samples := c.md.samples.map fun s => { s with offset := s.offset / r } },
     hits := c.hits.map fun h => { h with offset := h.offset / r },
     holds := c.holds.map fun h => { h with offset := h.offset / r, length := h.length / r },
     bpms := c.bpms.map fun b => { b with offset := b.offset / r, bpm := b.bpm * r },
     svs := c.svs.map fun s => { s with offset := s.offset / r } }
 
-theorem chartOk_encOsu (c : Osu.Chart) (hp : 0 ≤ c.md.previewTime) : chartOk .osu (encOsu c) = true := by
+theorem chartOk_encOsu (c : Osu.Chart) : chartOk .osu (encOsu c) = true := by
   simp only [chartOk, Bool.and_eq_true, if_true]
   constructor
   · apply listsOk_of
@@ -111,11 +112,11 @@ theorem chartOk_encOsu (c : Osu.Chart) (hp : 0 ≤ c.md.previewTime) : chartOk .
     · simp [hasCol, encOsu]
     · simp [hasCol, encOsu]
   · simp only [encOsu, samplesOk, Bool.and_eq_true]
-    refine ⟨⟨⟨⟨⟨wf_mk _ _ _ (by decide) (fun a => by simp), by decide⟩, ?_⟩, by decide⟩, by decide⟩, by simpa using hp⟩
+    refine ⟨⟨⟨⟨wf_mk _ _ _ (by decide) (fun a => by simp), by decide⟩, ?_⟩, by decide⟩, by decide⟩
     simp [Frame.col, lookupCell, Cell.numeric, List.all_map, Function.comp_def]
 
-theorem scaleChart_encOsu (r : Rat) (c : Osu.Chart) (hp : 0 ≤ c.md.previewTime) : scaleChart .osu r (encOsu c) = encOsu (scaleOsu r c) := by
+theorem scaleChart_encOsu (r : Rat) (c : Osu.Chart) : scaleChart .osu r (encOsu c) = encOsu (scaleOsu r c) := by
   simp [scaleChart, encOsu, scaleOsu, scaleFrame, scaleRow, scaleCell, strCell, timeCols, durCols, bpmCols, List.map_map,
-    Function.comp_def, scalePreview, not_lt.mpr hp]
+    Function.comp_def]
 
 end Reamber.Rate
